@@ -264,6 +264,14 @@ class G:
                 exitk = "return"
             lines += ["var keep = [];", "fn run() {", "    for i in 0..4 {", "        var loc = i;",
                       "        keep.push(|| { loc = loc + 100; return loc; });"]
+            # locals declared AFTER the captured one and never captured themselves: the body is left with a mix of both on the stack
+            pads = self.r.below(3)
+            for pi in range(pads):
+                lines.append("        var pad%d = i * %d;" % (pi, pi + 2))
+            if pads and self.r.chance(1, 2):
+                lines.append("        fn helper() { return loc + 1000; }")
+                lines.append("        keep.push(helper);")
+                lines.append("        var last = pad0;")
             if exitk == "return":
                 lines += ["        if i == 2 { return \"ret\"; }"]
             elif exitk == "break":
@@ -595,7 +603,7 @@ class G:
         lines = []
         its = ["[]", "[1]", "[3, 1, 2]", "()", "(7,)", "(1, 2, 3)", "0..0", "0..4", "4..0", "-2..2", '""', '"a"', '"aé€😀"']
         it = self.r.choice(its)
-        k = self.r.below(7)
+        k = self.r.below(8)
         isstr = it.startswith('"')
         lines.append("var src = %s;" % it)
         if k == 0:
@@ -637,6 +645,21 @@ class G:
                       "for v in Count.new(%d) { print(v); }" % limit,
                       "print(Count2.new(%d).map(|v| v + 1).filter(|v| v > 11).collect());" % limit,
                       "fn early() { for v in Count.new(5) { if v == 2 { return v; } } return -1; }", "print(early());"]
+        elif k == 6:
+            # the protocol offered through closure-valued FIELDS (a record of closures, an instance given its own next/iter): a for loop,
+            # calls by hand and the adapters must all see the same elements
+            self.tag("field-iterator")
+            limit = 1 + self.r.below(3)
+            lines += ["#[constructor(new)]", "class Rec {}",
+                      "fn record_iter(s) { var it = s.iter(); var r = Rec.new(); r.iter = || r; r.next = || it.next(); return r; }",
+                      "class Count {", "    #[constructor]", "    fn new(self) { self.n = 0; }", "    fn iter(self) { return self; }",
+                      "    fn next(self) { self.n = self.n + 1; return self.n; }", "}",
+                      "fn take(c, limit) { var inner = c.next; var left = limit; c.next = || { if left == 0 { return StopIter.new(); } left = left - 1; return inner(); }; return c; }",
+                      "for x in record_iter(src) { print(x); }",
+                      "var byhand = record_iter(src); var h = byhand.next(); while !h.derives(StopIter) { print(\"hand \" + String.from(h)); h = byhand.next(); }",
+                      "for x in take(Count.new(), %d) { print(x); }" % limit,
+                      "print(MapIter.new(take(Count.new(), %d), |x| x * 2).collect());" % limit,
+                      "var d = Count.new(); d.iter = || src.iter();", "for x in d { print(x); }"]
         else:
             self.tag("mutate-during-iteration")
             lines += ["var vec = [1, 2, 3];", "var seen = 0;",
